@@ -74,16 +74,25 @@ def concretise(hist, rng):
         for i in idxs:
             spell[i] = _spelling(hist[i]["key"], i)
         delayed = []
+        # two markers of one kind for one name at the end of a time point: (most of the time) both are shifted from ONE carrier row
+        # and written the same way but for the letter case of the name - as groups they are equal, as markers they are two
+        twin = (len(idxs) >= 2 and hist[idxs[-1]]["k"] == hist[idxs[-2]]["k"] and hist[idxs[-1]]["key"] == hist[idxs[-2]]["key"]
+                and rng.random() < 0.7)
+        if twin:
+            mode = "delay"
         if mode == "delay":
             # the code appends shifted groups after the rows of that onset; sometimes TWO markers of the time
             # point are shifted from one and the same carrier row
-            delayed = idxs[-2:] if (len(idxs) >= 2 and rng.random() < 0.6) else idxs[-1:]
+            delayed = idxs[-2:] if (len(idxs) >= 2 and (twin or rng.random() < 0.6)) else idxs[-1:]
         for i in idxs:
             if i in delayed:
                 continue
             texts.append(_marker_text(hist[i]["k"], spell[i], i))
         if delayed:
-            if samecarrier:
+            if twin:
+                d = dfix
+                carrier = ", ".join(_marker_text(hist[i]["k"], spell[i], 0, delay=(d / 100.0 if small else d)) for i in delayed)
+            elif samecarrier:
                 d = dfix
                 for i in delayed:        # (within ONE time point every marker keeps a spelling of its own)
                     fixed = _spelling(hist[i]["key"], 0)
